@@ -12,7 +12,7 @@ m = {
     "hooks": {
         "guard": "AVEL_VERIF",
         "enable": "no source hooks are needed: every observation point is public API, memory, signals or the build result; checks compile /repo/include as it is",
-        "baseline_off_cmd": "cmake --build /repo/_build && ctest --test-dir /repo/_build -j8 --timeout 900",
+        "baseline_off_cmd": "cmake --build /repo/_build && /repo/_build/tests/AVEL_TESTS --gtest_brief=1",
         "source_commits": [],
         "add_only": True,
     },
